@@ -1,3 +1,6 @@
 import Verif.Props.C09
 open Verif.Props.C09
 #print axioms json_valid_and_reaccepted
+#print axioms xml_output_wellformed
+#print axioms svg_path_output_parses
+#print axioms svg_path_lex_roundtrip
